@@ -678,7 +678,9 @@ pub fn preprocess_str<T: AsRef<Path>, U: AsRef<Path>, V: BuildHasher>(
                             &defines,
                             include_paths,
                             ignore_include,
-                            strip_comments,
+                            // A comment in the macro text is not part of the file name:
+                            // the name is always resolved with comments stripped.
+                            true,
                             resolve_depth + 1,
                             include_depth,
                         )? {
